@@ -9,6 +9,8 @@ PROP = {
                    ("TestVFC04Precedence", (6000, 25000), {"shards": (1, 16)})]},
         {"name": "http", "pkg": "internal/home", "files": ["home/common_assembly_test.go", "home/c04_http_test.go"],
          "tests": [("TestVFC04HTTP", (250, 1000), {"steps": 30, "shards": (1, 8)})]},
+        {"name": "effective", "pkg": "internal/dnsforward", "files": ["dnsforward/common_world_test.go", "dnsforward/c01_test.go", "dnsforward/c03_test.go", "dnsforward/c04_effective_test.go"],
+         "tests": [("TestVFC04EffectiveSettings", (600, 4000), {"shards": (2, 16)})]},
     ],
     "level": "exploration",
     "technique": "property-based testing (rapid): stateful machine over client.Storage against a reference model "
